@@ -337,6 +337,37 @@ Section C13_entry.
         QT (map (fun x => [x]) (map nname (nodes_vec g))) <= QT first.
   Proof. exact (louvain_levels_monotone_input teqb tltb teqb_spec tltb_asym tltb_total). Qed.
 
+  (* the same WITHOUT the hypothesis [weights_ok] (round 2, after the repair of F23): with the guard
+     in the model a returned value means that no real weight is negative, and [esT] exists only if
+     every edge has a weight when weighted - so every weight is accounted for by the hypotheses
+     that are left *)
+  Theorem C13_levels_monotone_any_weights :
+    forall lf sf (g : gstate T A) weighted res thr perms ls esT,
+      WF teqb tltb g -> multi (sp g) = false -> 0 <= res ->
+      wedges_of weighted (get_all_edges g) = Some esT ->
+      louvain_partitions teqb tltb lf sf g weighted res thr perms = Ok ls ->
+      let QT := newman teqb (directed (sp g)) esT res in
+      chain (fun a b => QT a <= QT b) ls /\
+      exists first rest, ls = first :: rest /\
+        QT (map (fun x => [x]) (map nname (nodes_vec g))) <= QT first.
+  Proof. exact (louvain_levels_monotone_input_guarded teqb tltb teqb_spec tltb_asym tltb_total). Qed.
+
+  (* THE GUARD (repair of F23, /repo 9619d10; first statement of louvain_partitions): a weighted
+     call on a graph with a real negative weight is answered with InvalidArgument - every graph
+     state, fuel, shuffle table, resolution, threshold - and on the domain of the theorems above
+     (weights_ok) the guard is false, so they are statements about the code after the guard *)
+  Theorem C13_negative_weights_rejected :
+    forall lf sf (g : gstate T A) weighted res thr perms,
+      weighted = true -> (exists e z, In e (get_all_edges g) /\ ew e = Some z /\ (z < 0)%Z) ->
+      louvain_partitions_t teqb tltb lf sf g weighted res thr perms = Err InvalidArgument /\
+      louvain_partitions teqb tltb lf sf g weighted res thr perms = Err InvalidArgument /\
+      louvain_communities teqb tltb lf sf g weighted res thr perms = Err InvalidArgument.
+  Proof. exact (louvain_negative_weights_rejected teqb tltb). Qed.
+
+  Theorem C13_guard_false_on_domain : forall (g : gstate T A) weighted,
+    weights_ok g weighted -> negative_weight_guard g weighted = false.
+  Proof. exact weights_ok_guard_false. Qed.
+
   (* the renaming convert_graph / convert_back preserves Newman's modularity (single-edge input) *)
   Theorem C13_convert_back_preserves_Q :
     forall (g : gstate T A) weighted gu esT level (lvT : list (list T)),
